@@ -69,13 +69,15 @@ def ops(root, tier):
     for key in ("rbm_am", "rbm_ph", "unitary_dict"):
         out.append(["badkey", 0, key])
     out += [["saver", 0, 1], ["saver", 0, 2]]
+    # locations given as open file objects instead of paths
+    out += [["savef", 0, 0, 2], ["savef", 1, 1, 0], ["loadf", 1, 0], ["loadf", 0, 1]]
     return out
 
 
 def enabled(root, h, op):
     def written(f):
-        return any((o[0] == "save" and o[2] == f) or (o[0] == "saver" and f == 0) for o in h)
-    if op[0] == "load":
+        return any((o[0] in ("save", "savef") and o[2] == f) or (o[0] == "saver" and f == 0) for o in h)
+    if op[0] in ("load", "loadf"):
         return written(op[2])
     if op[0] == "autoload":
         return written(op[1])
@@ -195,8 +197,8 @@ class World:
         elif kind == "addU":
             self.M[0].unitary_dict["H"] = torch.tensor([[[1.0, 1.0], [1.0, -1.0]], [[0.0, 0.0], [0.0, 0.0]]], dtype=torch.double) / math.sqrt(2)
             self.refM[0] = abs_model(self.M[0])
-        elif kind in ("save", "saver"):
-            if kind == "save":
+        elif kind in ("save", "saver", "savef"):
+            if kind in ("save", "savef"):
                 _, mi, fi, k = op
             else:
                 mi, fi, k = 0, 0, op[2]
@@ -205,6 +207,9 @@ class World:
             try:
                 if kind == "save":
                     call(m.save, self.F[fi], self.mds[k])
+                elif kind == "savef":
+                    with open(self.F[fi], "wb") as fh:
+                        call(m.save, fh, self.mds[k])
                 else:
                     sv = L.callbacks.ModelSaver(1, self.dir, "f{}.pt", save_initial=False, metadata=self.mds[k])
                     call(sv.on_epoch_end, m, 0)
@@ -218,10 +223,14 @@ class World:
             self.refF[fi] = (a[0], a[1], canon(self.mds[k] if self.mds[k] else {}) if True else None)
             # expected metadata content is the content the caller passed (reference copy)
             self.refF[fi] = (a[0], a[1], self.refMD[k] if self.refMD[k] != canon(None) else canon({}))
-        elif kind == "load":
+        elif kind in ("load", "loadf"):
             _, mi, fi = op
             try:
-                call(self.M[mi].load, self.F[fi])
+                if kind == "load":
+                    call(self.M[mi].load, self.F[fi])
+                else:
+                    with open(self.F[fi], "rb") as fh:
+                        call(self.M[mi].load, fh)
             except LibRaised as e:
                 out.append((f"roundtrip:load-raised:{e.kind}", dict(error=str(e))))
                 return out
@@ -267,7 +276,7 @@ def expand(task):
         for o in hist:
             w.apply(o, check=False)
         viols = w.apply(op, check=True)
-        acc.ev(1, nontrivial=op[0] in ("save", "load", "autoload", "saver", "badkey"))
+        acc.ev(1, nontrivial=op[0] in ("save", "load", "autoload", "saver", "badkey", "savef", "loadf"))
         for sig, detail in viols:
             acc.viol(sig, dict(root=root, history=hist + [op]), detail=detail)
         key = w.key()
